@@ -68,6 +68,26 @@ def drv_env():
     return env
 
 
+def build_eval():
+    """bin/build-ocaml builds every engine and stops at the first one that fails; if some OTHER engine
+    is broken, build the eval engine alone (same steps as bin/build-ocaml)."""
+    ok, log = common.ocaml_build()
+    if ok and os.path.exists(RUN):
+        return True, log
+    d = os.path.join(common.BUILD, "ocaml", "eval")
+    ex = os.path.join(common.COQ, "Extract", "ExtractEval.v")
+    drv = os.path.join(common.VERIF, "harness", "ocaml", "eval")
+    cmd = ("set -e; mkdir -p %(d)s; cd %(d)s; rm -f *.ml *.mli *.cm* *.o; "
+           "coqc -Q %(coq)s NV %(ex)s -o %(d)s/ExtractEval.vo >/dev/null; rm -f ExtractEval.vo ExtractEval.glob .*.aux; "
+           "cp %(drv)s/*.ml .; files=\"$(ocamlfind ocamldep -sort *.mli *.ml)\"; "
+           "ocamlfind ocamlopt -O3 -w -a -package unix,str -linkpkg $files -o run 2>build.log || "
+           "ocamlfind ocamlopt -w -a -package unix,str -linkpkg $files -o run 2>build.log") % {
+               "d": d, "coq": common.COQ, "ex": ex, "drv": drv}
+    with common.Lock("ocaml"):
+        rc, so, se = common.sh(["bash", "-c", cmd], timeout=600)
+    return rc == 0 and os.path.exists(RUN), log + so + se
+
+
 def run_ocaml(args, timeout=600):
     """the evaluator recurses deeply: give it a large stack"""
     cmd = "ulimit -s unlimited 2>/dev/null || ulimit -s 4000000 2>/dev/null; exec %s %s" % (
@@ -423,9 +443,9 @@ def run_evaldiff(ctx, profiles, ncases, tier, on_crash=None, variants=("o", "u",
     """Returns dict(c02=[...], c08=[...], crashes=[...], rejected=[...], harness=[...], evaluations,
     distinct_nontrivial, distribution (per profile), throughput...).  Reporting is left to the caller
     (checks/c02.py, checks/c08.py) except for nothing: this function does not touch ctx.violations."""
-    ok, log = common.ocaml_build()
-    if not ok or not os.path.exists(RUN):
-        raise common.BuildError("build/ocaml/eval/run missing: " + log[-2000:])
+    ok, log = build_eval()
+    if not ok:
+        raise common.BuildError("build/ocaml/eval/run could not be built: " + log[-2000:])
     if nevrun is None:
         lib = common.repobuild("asan")
         nevrun = common.cc_driver("nevrun", ["common/nevrun.c"], lib)
